@@ -111,6 +111,7 @@ def fam_c17(tier, seed):
         "timed1": lambda: R_timed_once(T),
         "timedloop": lambda: R_timed_loop(T, 3),
         "try": lambda: R_try_loop(4),
+        "trypoll": lambda: R_try_loop(3 * T),
     }
     combos = []
     for n in (1, 2, 3):
@@ -127,7 +128,29 @@ def fam_c17(tier, seed):
         plans.append((combo, [], [T * MS - 300_000]))
     if tier == "quick":
         plans = _sample(rng, plans, 300)
+    # a timed receiver that is woken several times for requests which pollers take first
+    for combo in (("timed1", "trypoll"), ("timed1", "trypoll", "trypoll"), ("timedloop", "trypoll"), ("recv", "timed1", "trypoll")):
+        for pts in ([T * MS // 4, T * MS // 2], [T * MS // 5, 2 * T * MS // 5, 3 * T * MS // 5], [T * MS // 2, T * MS // 2 + 300_000]):
+            plans.append((combo, [], list(pts)))
+    # spurious condvar wake-ups (allowed by std) at chosen instants: the timing bounds must survive them
+    spur = []
+    for combo in (("timed1",), ("timedloop",), ("recv", "timed1"), ("timed1", "timed1"), ("timed1", "try")):
+        for sp in ([T * MS // 2, 3 * T * MS // 4], [T * MS // 4, T * MS // 2, T * MS - 600_000], [T * MS - 300_000], [T * MS // 2, T * MS - 1_000_000, 3 * T * MS // 2]):
+            for pts in ([], [T * MS + 2_000_000]):
+                spur.append((combo, sp, pts))
     scs = []
+    for (combo, sp, pts) in spur:
+        apps = [recvs[r]() for r in combo]
+        prog = []
+        last = 0
+        for t in sp:
+            prog += [{"op": "sleep", "ns": t - last}, {"op": "spurious"}]
+            last = t
+        apps.append({"prog": prog})
+        cc = [simple_conn(c, 1, at_ns=t) for c, t in enumerate(pts)]
+        sc = scenario("C17-s%03d" % len(scs), "C17", cc, apps, horizon_ms=6 * T + 20, single=False)
+        sc["tags"] = ["queue", "spurious-wakeups", "recv:" + "+".join(combo)]
+        scs.append(sc)
     for k, (combo, uts, pts) in enumerate(plans):
         apps = [recvs[r]() for r in combo]
         # one unblocker thread per distinct instant (they never receive)
@@ -218,6 +241,21 @@ def fam_c20(tier, seed):
         sc = scenario("C20-%04d" % k, "C20", cc, [serve("recv", "spawn"), serve("recv", "spawn")], horizon_ms=200, single=False,
                       drop_server_early=True, connect_after_drop=2)
         sc["tags"] = ["pool", "drop-while-held", "n:%d" % n]
+        scs.append(sc)
+        k += 1
+    # (b2) connections that outlive the drop by more than the idle period: their workers go idle
+    #      long after the drop and must still be reclaimed
+    for n, linger_ms in itertools.product([5, 8, 12], [5500, 6500]):
+        cc = []
+        for c in range(n):
+            plan = respond(200, 6, wait_phase=2) if c % 2 == 0 else respond(200, 3)
+            d, j, ln = simple_conn(c, 1, plan=plan)
+            stay = linger_ms if c > 0 else 10
+            d["prog"] = [{"op": "send", "to": ln}, {"op": "phase", "k": 2}, {"op": "sleep", "ns": stay * MS}]
+            cc.append((d, j, ln))
+        sc = scenario("C20-%04d" % k, "C20", cc, [serve("recv", "spawn"), serve("recv", "spawn")], horizon_ms=200, single=False,
+                      drop_server_early=True, connect_after_drop=1)
+        sc["tags"] = ["pool", "drop-while-held", "linger", "n:%d" % n]
         scs.append(sc)
         k += 1
     # (c) plain drop with idle / open connections
@@ -512,7 +550,14 @@ def _bad_heads():
         ("expect-bad", "r417", b"GET @URL@ HTTP/1.1\r\nHost: x\r\nExpect: 200-ok\r\n\r\n"),
         ("expect-empty", "r417", b"GET @URL@ HTTP/1.1\r\nHost: x\r\nExpect: \r\n\r\n"),
         ("expect-case", "r417", b"GET @URL@ HTTP/1.1\r\nHost: x\r\nEXPECT: 100-Continues\r\n\r\n"),
+        ("expect-bad-v10", "r417", b"GET @URL@ HTTP/1.0\r\nHost: x\r\nConnection: keep-alive\r\nExpect: 200-ok\r\n\r\n"),
+        ("expect-case-v10", "r417", b"POST @URL@ HTTP/1.0\r\nexpect: 100-CONTINUE-please\r\nContent-Length: 0\r\n\r\n"),
+        ("expect-with-body", "r417", b"POST @URL@ HTTP/1.1\r\nHost: x\r\nExpect: nope\r\nContent-Length: 3\r\n\r\nabc"),
+        ("no-colon-v10", "r400", b"GET @URL@ HTTP/1.0\r\nConnection keep-alive\r\n\r\n"),
+        ("nonascii-v10", "close", b"GET @URL@ HTTP/1.0\r\nX: \xe9\r\n\r\n"),
+        ("empty-line-first", "r400", b"\r\nGET @URL@ HTTP/1.1\r\nHost: x\r\n\r\n"),
         ("http2", "r505", b"GET @URL@ HTTP/2.0\r\nHost: x\r\n\r\n"),
+        ("http2-body", "r505", b"POST @URL@ HTTP/2.0\r\nHost: x\r\nContent-Length: 4\r\n\r\nabcd"),
         ("http3", "r505", b"GET @URL@ HTTP/3.0\r\nHost: x\r\n\r\n"),
     ]
 
